@@ -1109,12 +1109,22 @@ def check_c16(tier, seed):
         bad.setdefault(t, []).append((l, clause))
     for t, l in rejected:
         bad.setdefault(t, []).append((l, ("bulk.step_not_allowed_by_machine",)))
+    # clauses that only say "the code is not the step machine of the specification" (e.g. another conversion order)
+    # are not statements of C16: alone they mean the specification misrepresents the code (exit 2)
+    CONF_ONLY = {"bulk.row_order", "bulk.row_input", "bulk.step_not_allowed_by_machine"}
+    conf_only = [t for t in bad if all(c[0] in CONF_ONLY for _, c in bad[t])]
     for t in sorted(bad):
+        if t in conf_only:
+            continue
         violations += 1
         if violations <= 10:
             l, clause = bad[t][0]
             path = replay_file("C16", "bulk", clause, dict(metas[t - 1], event=l, all_clauses=sorted({"/".join(c) for _, c in bad[t]})))
             lines.append(f"VIOLATION property=C16 replay={path}   # clauses {sorted({'/'.join(c) for _, c in bad[t]})}")
+    if conf_only and not violations:
+        t = conf_only[0]
+        raise MachineryError(f"{len(conf_only)} recorded file operations are not behaviours of the step machine although no clause of C16 fails "
+                             f"(first: {json.dumps(metas[t - 1])[:400]}; clauses {sorted({'/'.join(c) for _, c in bad[t]})}): the specification misrepresents the code")
     if model["violated"] and not violations:
         raise MachineryError("TLC reports a C16 invariant violated on the model but the implementation conforms: the specification is wrong")
     n_raise = sum(1 for m in metas if m["out"][0] == "raise")
